@@ -3407,3 +3407,28 @@ func init() {
 	registry["C01"].Meta.Rules["C01.21"] = "dataset elements are laid out one after the other: " + txt + " (shared with C02.15 / C06.13: the integer and float encoders and decoders of dataset content)"
 	registry["C01"].Rules = append(registry["C01"].Rules, func(c *Ctx, r *Result) { elementStrideRule(c, r, "C01.21", 8) })
 }
+
+// ---- module-wide rules of round 8, shared under every property whose files they read ----
+func init() {
+	nextID := func(prop string) string {
+		max := 0
+		for id := range registry[prop].Meta.Rules {
+			var n int
+			if _, err := fmt.Sscanf(strings.TrimPrefix(id, prop+"."), "%d", &n); err == nil && n > max {
+				max = n
+			}
+		}
+		return fmt.Sprintf("%s.%d", prop, max+1)
+	}
+	share := func(props []string, txt, from string, run func(c *Ctx, r *Result, id string)) {
+		for _, p := range props {
+			id := nextID(p)
+			registry[p].Meta.Rules[id] = txt + " (shared with " + from + ": the rule reads the whole module)"
+			registry[p].Rules = append(registry[p].Rules, func(c *Ctx, r *Result) { run(c, r, id) })
+		}
+	}
+	share([]string{"C01", "C02", "C03", "C05", "C11", "C15"}, registry["C04"].Meta.Rules["C04.17"], "C04.17", func(c *Ctx, r *Result, id string) { exactRejectionRule(c, r, id, 20) })
+	share([]string{"C01", "C03", "C05", "C06", "C15"}, registry["C14"].Meta.Rules["C14.19"], "C14.19", func(c *Ctx, r *Result, id string) { widthArmRule(c, r, id, 3) })
+	share([]string{"C04", "C10", "C16"}, registry["C03"].Meta.Rules["C03.21"], "C03.21", func(c *Ctx, r *Result, id string) { typedMessageWriteRule(c, r, id, 2) })
+	share([]string{"C05", "C11"}, registry["C06"].Meta.Rules["C06.2"], "C06.2", func(c *Ctx, r *Result, id string) { aliasRule(c, r, "C06", c06padding, "C06.2", id) })
+}
